@@ -53,6 +53,7 @@ package mqtt
 //@   mode int
 //@   props C01 C03
 //@   requires c != nil && cli != nil && ctx != nil && message != nil && cli.Transport != nil
+//@   requires len(message.Topic) <= 0xFFFF && len(message.Topic)+len(message.Payload)+4 <= 0xFFFFFFF
 //@   assigns c.retryQueue; c.newRetryByError; message.ID; message.Dup; cli.idLast
 //@   ensures[C01,C03] runs_publish: evCount("(*RetryClient).publish") == 1 && evArg[*BaseClient]("(*RetryClient).publish", 0, 2) == cli &&
 //@        evArg[*Message]("(*RetryClient).publish", 0, 3) == message && evArg[*RetryClient]("(*RetryClient).publish", 0, 0) == c
@@ -113,3 +114,87 @@ package mqtt
 //@   ensures[C09] same_connect: evArg[string]("(*BaseClient).Connect", 0, 2) == clientID && sameSlice(evArg[[]ConnectOption]("(*BaseClient).Connect", 0, 3), opts) &&
 //@        evArg[context.Context]("(*BaseClient).Connect", 0, 1) == ctx
 //@   ensures[C01] signalled: evCount("close") == 1 && evIndex("(*BaseClient).Connect", 0) < evIndex("close", 0)
+
+// ---- the task bodies: publish / subscribe / unsubscribe (C01, C03, C08, C12, C18) ----
+
+//@ spec
+//@ func hasRetry(e error) bool { _, ok := e.(ErrorWithRetry); return ok }
+//@
+//@ // q consists of the snapshot old followed by n more entries (nothing dropped, nothing reordered)
+//@ func queueAppended(q []retryFn, old ssnap[retryFn], n int) bool {
+//@ 	return len(q) == ssLen(old)+n && forall(0, ssLen(old), func(i int) bool { return sameFunc(q[i], ssAt(old, i)) })
+//@ }
+//@
+//@ // f is the bound method value e.Retry
+//@ func isBoundRetry(f retryFn, e error) bool {
+//@ 	return closureIs(f, "(ErrorWithRetry).Retry$bound") && closureVar[ErrorWithRetry](f, "(ErrorWithRetry).Retry$bound", 0) == e
+//@ }
+//@ end
+
+//@ func (*RetryClient).onError
+//@   mode int
+//@   props C18
+//@   requires c != nil
+//@   assigns nothing
+//@   ensures[C18] reported: evCount("callback:func(error)") == ite(c.OnError != nil, 1, 0) &&
+//@        (evCount("callback:func(error)") == 1 ==> evArg[error]("callback:func(error)", 0, 0) == err)
+
+//@ func (*RetryClient).publish$1
+//@   mode int
+//@   props C01 C03 C12 C18
+//@   requires c != nil && cli != nil && ctx != nil && carriable(message) && cli.Transport != nil
+//@   assigns c.retryQueue; c.newRetryByError; message.ID; message.Dup; cli.idLast
+//@   let qs ssnap[retryFn] = sliceSnap(c.retryQueue)
+//@   let n0 bool = c.newRetryByError
+//@   ensures[C18] request_ctx: evCount("(*BaseClient).Publish") == 1 && evCount("(*RetryClient).requestContext") == 1 &&
+//@        evArg[context.Context]("(*BaseClient).Publish", 0, 1) == evRet[context.Context]("(*RetryClient).requestContext", 0, 0) &&
+//@        evArg[context.Context]("(*RetryClient).requestContext", 0, 1) == ctx
+//@   ensures[C01,C12] same_request: evArg[*Message]("(*BaseClient).Publish", 0, 2) == message && evArg[*BaseClient]("(*BaseClient).Publish", 0, 0) == cli
+//@   ensures[C18] on_error: evRet[error]("(*BaseClient).Publish", 0, 0) != nil ==> evCount("(*RetryClient).onError") == 1 &&
+//@        evArg[error]("(*RetryClient).onError", 0, 1) == evRet[error]("(*BaseClient).Publish", 0, 0)
+//@   ensures[C01,C03,C18] kept: evRet[error]("(*BaseClient).Publish", 0, 0) != nil && hasRetry(evRet[error]("(*BaseClient).Publish", 0, 0)) &&
+//@        evCount("select") == 1 && evRet[int]("select", 0, 0) != 0 ==>
+//@        queueAppended(c.retryQueue, qs, 1) && c.newRetryByError
+//@   ensures[C01,C03,C18] kept_handle: evRet[error]("(*BaseClient).Publish", 0, 0) != nil && hasRetry(evRet[error]("(*BaseClient).Publish", 0, 0)) &&
+//@        evCount("select") == 1 && evRet[int]("select", 0, 0) != 0 ==>
+//@        isBoundRetry(c.retryQueue[len(c.retryQueue)-1], evRet[error]("(*BaseClient).Publish", 0, 0))
+//@   ensures[C01,C03] untouched: evRet[error]("(*BaseClient).Publish", 0, 0) == nil || !hasRetry(evRet[error]("(*BaseClient).Publish", 0, 0)) ||
+//@        (evCount("select") == 1 && evRet[int]("select", 0, 0) == 0) ==> queueAppended(c.retryQueue, qs, 0) && c.newRetryByError == n0
+//@   ensures[C03] one_request: evCount("(*BaseClient).Subscribe") == 0 && evCount("(*BaseClient).Unsubscribe") == 0 && evCount("go") == 0
+
+//@ func (*RetryClient).publish$2
+//@   mode int
+//@   props C01 C03 C12
+//@   requires cli != nil && ctx != nil && cli.Transport != nil && publish != nil
+//@   note closure invariant: the captured variable publish holds the publish closure of the same RetryClient.publish activation
+//@   requires closureIs(publish, "(*RetryClient).publish$1") && *closureVar[**RetryClient](publish, "(*RetryClient).publish$1", 0) != nil
+//@   requires copyMsg.QoS <= QoS2 && len(copyMsg.Topic) <= 0xFFFF && len(copyMsg.Topic)+len(copyMsg.Payload)+4 <= 0xFFFFFFF
+//@   assigns any RetryClient.retryQueue; any RetryClient.newRetryByError; copyMsg; cli.idLast
+//@   ensures[C01,C03,C12] first_transmission: evCount("(*RetryClient).publish$1") == 1 && evArg[*BaseClient]("(*RetryClient).publish$1", 0, 1) == cli &&
+//@        evArg[context.Context]("(*RetryClient).publish$1", 0, 0) == ctx && result == nil
+
+//@ func (*RetryClient).publish
+//@   mode int
+//@   props C01 C03 C05 C12
+//@   requires c != nil && cli != nil && ctx != nil && message != nil && cli.Transport != nil
+//@   requires len(message.Topic) <= 0xFFFF && len(message.Topic)+len(message.Payload)+4 <= 0xFFFFFFF
+//@   assigns c.retryQueue; c.newRetryByError; message.ID; message.Dup; cli.idLast
+//@   let qs ssnap[retryFn] = sliceSnap(c.retryQueue)
+//@   let n0 bool = c.newRetryByError
+//@   let qlen int = len(c.retryQueue)
+//@   ensures[C05] invalid: evRet[error]("(*BaseClient).ValidateMessage", 0, 0) != nil ==> queueAppended(c.retryQueue, qs, 0) && evCount("(*RetryClient).publish$1") == 0
+//@   ensures[C01,C03] direct: evRet[error]("(*BaseClient).ValidateMessage", 0, 0) == nil && qlen == 0 ==> evCount("(*RetryClient).publish$1") == 1 &&
+//@        evArg[*Message]("(*RetryClient).publish$1", 0, 2) == message && evArg[*BaseClient]("(*RetryClient).publish$1", 0, 1) == cli &&
+//@        evArg[context.Context]("(*RetryClient).publish$1", 0, 0) == ctx
+//@   ensures[C01,C03,C12] deferred: evRet[error]("(*BaseClient).ValidateMessage", 0, 0) == nil && qlen > 0 && message.QoS > QoS0 ==>
+//@        evCount("(*RetryClient).publish$1") == 0 && queueAppended(c.retryQueue, qs, 1) && c.newRetryByError == n0 &&
+//@        closureIs(c.retryQueue[len(c.retryQueue)-1], "(*RetryClient).publish$2") &&
+//@        fresh(closureVar[*Message](c.retryQueue[len(c.retryQueue)-1], "(*RetryClient).publish$2", 1)) &&
+//@        closureVar[*Message](c.retryQueue[len(c.retryQueue)-1], "(*RetryClient).publish$2", 1).Topic == message.Topic &&
+//@        closureVar[*Message](c.retryQueue[len(c.retryQueue)-1], "(*RetryClient).publish$2", 1).QoS == message.QoS &&
+//@        closureVar[*Message](c.retryQueue[len(c.retryQueue)-1], "(*RetryClient).publish$2", 1).Retain == message.Retain &&
+//@        closureVar[*Message](c.retryQueue[len(c.retryQueue)-1], "(*RetryClient).publish$2", 1).ID == message.ID &&
+//@        sameSlice(closureVar[*Message](c.retryQueue[len(c.retryQueue)-1], "(*RetryClient).publish$2", 1).Payload, message.Payload)
+//@   ensures[C03] qos0_behind_queue: evRet[error]("(*BaseClient).ValidateMessage", 0, 0) == nil && qlen > 0 && message.QoS == QoS0 ==>
+//@        evCount("(*RetryClient).publish$1") == 0 && queueAppended(c.retryQueue, qs, 0)
+//@   ensures[C03] in_order: evCount("(*RetryClient).publish$1") == 1 ==> qlen == 0
